@@ -422,6 +422,18 @@ class MemoryTags(Tags):
         )
         if result != dest_dict:
             to_tags._set_tag_dict(result)
+        # Like InterTags.merge, also update the master of a bound destination.
+        branch = getattr(to_tags, "branch", None)
+        master = None
+        if branch is not None and not ignore_master:
+            master = branch.get_master_branch()
+        if master is not None:
+            with master.lock_write():
+                extra_updates, extra_conflicts = InterTags._merge_to(
+                    master.tags, source_dict, overwrite, selector
+                )
+            updates.update(extra_updates)
+            conflicts += [c for c in extra_conflicts if c not in conflicts]
         return updates, conflicts
 
 
